@@ -317,6 +317,21 @@ def rule_ambient_py(ctx, px):
                 continue
             chk = CLASSIFIED.get(key)
             if chk is None:
+                # generic structural justifications that hold for any site: the value can only reach a log record, or only selects
+                # code by interpreter version
+                for g_chk in (_chk_logging_arg, _chk_version_gate):
+                    try:
+                        okg, whyg = g_chk(s, pm, px)
+                    except Exception:
+                        okg = False
+                    if okg:
+                        ctx.ob(R, m.rel, construct, True, whyg, s.node.lineno)
+                        break
+                else:
+                    okg = False
+                if okg:
+                    continue
+            if chk is None:
                 ctx.ob(R, m.rel, construct, False,
                        f"unclassified ambient read ({s.category}) outside the auditing guard", s.node.lineno)
                 continue
